@@ -11,6 +11,17 @@ TRUST = ("Trusted base: TLC 1.8 and the TLA+ specs' reading of the code; the bac
          "Bounded: results hold for the stated constants and for the executions actually generated (counted in evidence).")
 
 CHECKS = {
+    "C05": dict(
+        technique="TLA+ spec Batcher.tla (producers' check/put/wait and the consumer's overflow drain, batching window, API call, "
+                  "merge, release and failure path, one action per queue/event/API operation) model-checked exhaustively with TLC "
+                  "(safety + liveness under WF); the real ExecutionState pipeline executed under a deterministic scheduler with real "
+                  "serialized sizes around the limits and adversarial window timing; every recorded execution validated against "
+                  "the spec by TLC trace validation (BatcherTrace.tla) plus direct oracles on order, tokens, limits and release",
+        text="Exhaustive model checking of the checkpoint pipeline for 2-3 producers, every arrival interleaving, every window "
+             "closing, sizes incl. oversize, every sync pattern and an API failure at any call; bound to the code by trace "
+             "validation of hundreds to thousands of real schedules (DFS + random/PCT). Two genuine defects found this way were "
+             "repaired (fix: commits) and the spec models the repaired code; the pinned-original variant is kept as a probe.",
+        design_ref="DESIGN.md 3.2, 5 (C05)"),
     "C19": dict(
         technique="TLA+ spec OrderedLock.tla model-checked exhaustively with TLC (safety + liveness under WF); real "
                   "OrderedLock/OrderedCounter executed under a deterministic scheduler (preemption-bounded DFS + random/PCT "
